@@ -360,6 +360,7 @@ selectmechanism:
 
 	// If we're already done after the first step, decode the <success/> or
 	// <failure/> before we exit.
+	success := false
 	if !more {
 		tok, err := d.Token()
 		if err != nil {
@@ -368,7 +369,7 @@ selectmechanism:
 		if t, ok := tok.(xml.StartElement); ok {
 			// TODO: Handle the additional data that could be returned if
 			// success?
-			_, _, err := decodeSASLChallenge(d, t, false)
+			_, success, err = decodeSASLChallenge(d, t, false)
 			if err != nil {
 				return mask, nil, err
 			}
@@ -377,7 +378,6 @@ selectmechanism:
 		}
 	}
 
-	success := false
 	for more {
 		select {
 		case <-ctx.Done():
@@ -426,6 +426,26 @@ selectmechanism:
 		err = w.Flush()
 		if err != nil {
 			return mask, nil, err
+		}
+	}
+
+	// If the mechanism finished on a <challenge/> the server has not told us
+	// the outcome yet: authentication is only complete once it sends <success/>.
+	if !success {
+		tok, err := d.Token()
+		if err != nil {
+			return mask, nil, err
+		}
+		t, ok := tok.(xml.StartElement)
+		if !ok {
+			return mask, nil, errUnexpectedPayload
+		}
+		_, success, err = decodeSASLChallenge(d, t, false)
+		if err != nil {
+			return mask, nil, err
+		}
+		if !success {
+			return mask, nil, errUnexpectedPayload
 		}
 	}
 	return Authn, session.Conn(), nil
